@@ -827,6 +827,60 @@ def check_typed(ctx, case):
     ctx.case({"kind": "typed", "tseed": case["tseed"]})
 
 
+def check_typedkey(ctx, case):
+    """case = {kind: typedkey, tseed}: a dataclass with a Dict field keyed by a hashable PlutusData class (a constructor,
+    with or without fields, in KEY position): to_cbor / datum hash against the reference, and the same instance as a
+    map value and as the datum itself give the same bytes for the key object"""
+    a, tobj, K, ents, nf = build_typedkey(case["tseed"])
+    case = {**case, "d": a2j(a)}
+    exp = P.encode(a)
+    res = attempt(tobj.to_cbor)
+    ctx.count(f"typedkey:fields={nf}")
+    if res != ("ok", exp):
+        ctx.violation("typed: a constructor used as a map key is not written in the ledger's framing", case, exp.hex(),
+                      res[1].hex() if res[0] == "ok" else res[1])
+    elif attempt(lambda: bytes(datum_hash(tobj).payload)) != ("ok", P.hash_bytes(exp)):
+        ctx.violation("typed: datum hash of a datum with constructor keys differs from the reference", case, P.hash_bytes(exp).hex(), "other")
+    # the key object on its own
+    for ka, _ in ents[:1]:
+        r = attempt(K(*[x[1] for x in ka[2]]).to_cbor)
+        if r != ("ok", P.encode(ka)):
+            ctx.violation("typed: key class instance on its own differs from the reference", case, P.encode(ka).hex(), str(r[1]))
+    ctx.case({"kind": "typedkey", "tseed": case["tseed"]})
+
+
+def build_typedkey(tseed):
+    """-> (abstract datum, instance, key class, entries, number of key fields)"""
+    rng = random.Random(tseed)
+    kcid, tcid = gen_cid(rng), gen_cid(rng)
+    nf = rng.choice([0, 1, 1, 2, 3])
+    kinds = [rng.choice(["int", "bytes"]) for _ in range(nf)]
+    K = make_dataclass("K", [(f"f{i}", int if k == "int" else bytes) for i, k in enumerate(kinds)], bases=(PlutusData,),
+                       namespace={"CONSTR_ID": kcid}, unsafe_hash=True)
+    vk = rng.choice(["int", "bytes", "key"])
+    T = make_dataclass("T", [("d", Dict[K, int if vk == "int" else bytes if vk == "bytes" else K])], bases=(PlutusData,),
+                       namespace={"CONSTR_ID": tcid})
+
+    def atom(k):
+        return ("int", gen_int(rng, huge_ok=False)) if k == "int" else ("bytes", gen_bytes(rng, 32))
+    ents, obj, seen = [], {}, set()
+    for _ in range(rng.choice([1, 1, 2, 3]) if nf else 1):
+        fa = [atom(k) for k in kinds]
+        if repr(fa) in seen:
+            continue
+        seen.add(repr(fa))
+        ka, ko = ("constr", kcid, fa), K(*[x[1] for x in fa])
+        if vk == "key":
+            va, vo = ka, ko
+        else:
+            va = atom(vk)
+            vo = va[1]
+        ents.append((ka, va))
+        obj[ko] = vo
+    a = ("constr", tcid, [("map", ents)])
+    return a, T(obj), K, ents, nf
+
+
 def describe(s):
     k = s[0]
     if k == "cls":
@@ -1000,6 +1054,8 @@ def dispatch(ctx, case):
         check_data(ctx, {"kind": "data", "d": case["d"]})
     elif k == "typed":
         check_typed(ctx, {"kind": "typed", "tseed": case["tseed"]})
+    elif k == "typedkey":
+        check_typedkey(ctx, {"kind": "typedkey", "tseed": case["tseed"]})
     elif k == "guard":
         check_guard(ctx, {"kind": "guard", "n": case["n"], "cid": case["cid"]})
     elif k == "tags":
@@ -1047,7 +1103,8 @@ def run(ctx):
                 "built as RawPlutusData over plain lists and over IndefiniteList / ByteString primitives, through from_dict / "
                 "from_json of its JSON form, and decoded from its canonical bytes and re-encoded; a second stream generates "
                 "dataclass hierarchies (int / bytes / ByteString / nested class / List[T] / IndefiniteList / Dict[K, V] / Union "
-                "fields) with one instance each (to_cbor, from_dict, from_json, from_cbor round trips); a third stream holds maps "
+                "fields) with one instance each (to_cbor, from_dict, from_json, from_cbor round trips); dataclasses with a Dict field "
+                "keyed by a hashable PlutusData class (constructor in key position, 0..3 fields); a third stream holds maps "
                 "with repeated or container keys; plus the long-bytes guard at every length 0..130 and the tag tables; a case "
                 "is non-trivial if it is a distinct datum / class hierarchy")
     ctx.assumptions = [
@@ -1081,6 +1138,8 @@ def run(ctx):
         if len(tseeds) < ctx.budget(60, 600):
             tseeds.append(ts)
         dispatch(ctx, {"kind": "typed", "tseed": ts})
+    for i in range(ctx.budget(300, 3000)):
+        dispatch(ctx, {"kind": "typedkey", "tseed": f"{ctx.seed}-k{i}"})
     for n in range(0, 131):
         dispatch(ctx, {"kind": "guard", "n": n, "cid": rng.choice(CIDS)})
     run_cext_pass(ctx, datas, tseeds)
